@@ -197,15 +197,14 @@ def sym_twin():
 
 
 def _grid(tier):
-    lays = [[1], [2], [0], [1, 1], [2, 1], [0, 1], [1, 0], [2, 2], [1, 1, 1], [1, 0, 1]] if tier == "quick" else \
+    lays = [[1], [2], [0], [1, 1], [2, 1], [0, 1], [1, 0], [0, 2], [2, 2], [1, 1, 1], [1, 0, 1], [0, 0, 1]] if tier == "quick" else \
         [[1], [2], [3], [0], [1, 1], [2, 1], [1, 2], [0, 2], [2, 0], [2, 2], [1, 1, 1], [2, 1, 1], [1, 0, 2], [1, 1, 1, 1], [3, 2]]
     g = []
     for l in lays:
         g.append(dict(layout=l))
-        if sum(l) >= 2:
-            for tgt in (1, 2, 3):
-                if tgt < sum(l) or tgt == 1:
-                    g.append(dict(layout=l, rechunk=True, target=tgt))
+        for tgt in (1, 2, 3):
+            if tgt < sum(l) or tgt == 1:
+                g.append(dict(layout=l, rechunk=True, target=tgt))
     for dn in ("len", "arr", "titled"):
         g.append(dict(layout=[2, 1], dtype_name=dn))
         g.append(dict(layout=[1, 1, 1], dtype_name=dn, rechunk=True, target=2))
